@@ -14,7 +14,7 @@ Fixpoint strip_prefix (p s : bytes) : option bytes :=
 
 (* genSplit with n < 0 and a non-empty separator: leftmost, non-overlapping
    occurrences; [cur] is the current piece, reversed.  One unit of fuel per
-   byte of input; None = out of fuel (never reached from [split], see
+   byte of input; None = out of fuel (never reached from [str_split], see
    Proofs/CodecSplitJoinProofs.split_total). *)
 Fixpoint split_f (fuel : nat) (sep cur s : bytes) : option (list bytes) :=
   match s with
@@ -37,7 +37,7 @@ Fixpoint split_f (fuel : nat) (sep cur s : bytes) : option (list bytes) :=
 (* strings.Split: an empty separator explodes the string into UTF-8 sequences
    (invalid bytes one by one); Split("", sep) = [""] for a non-empty sep and
    Split("", "") = [] *)
-Definition split (sep s : bytes) : option (list bytes) :=
+Definition str_split (sep s : bytes) : option (list bytes) :=
   match sep with
   | [] => Some (utf8_units s)
   | _ => split_f (List.length s) sep [] s
@@ -46,9 +46,9 @@ Definition split (sep s : bytes) : option (list bytes) :=
 (* CONCAT_SEPARATOR(sep, arr) for an array of strings: the separator goes
    before every element whose index is > 0.  (None elements, which the Go
    function skips, do not occur in the output of SPLIT.) *)
-Fixpoint join (sep : bytes) (l : list bytes) : bytes :=
+Fixpoint str_join (sep : bytes) (l : list bytes) : bytes :=
   match l with
   | [] => []
   | [x] => x
-  | x :: r => x ++ sep ++ join sep r
+  | x :: r => x ++ sep ++ str_join sep r
   end.
